@@ -16,13 +16,16 @@ import (
 
 func init() { registry["C05"] = checkC05 }
 
-const scAllKinds = `{"local","local2","use","assign","do","while","if","repeat","fornum","forin","lfunc","lefunc","gfunc","meth","file"}`
+const scAllKinds = `{"local","local2","use","assign","assign2","do","while","if","repeat","fornum","forin","lfunc","lefunc","gfunc","meth","file"}`
 
 // scAvoid is the Avoid constant of Scope.tla for the current check (set by the family before scopeRuns).
 var scAvoid = "{}"
 
 // scLight: the family issues several requests per occurrence; its quick tier uses a smaller exhaustive core.
 var scLight = false
+
+// scSeed seeds the layout choice (set from VERIF_SEED by scopeRuns).
+var scSeed int64 = 1
 
 // scKinds: statement forms enabled for the full BFS and the simulation (default: all).
 var scKinds = scAllKinds
@@ -99,7 +102,7 @@ func c05Build(id int, raw json.RawMessage) *Job {
 	if json.Unmarshal(raw, &tc) != nil {
 		return nil
 	}
-	r := scRenderProg(tc.Items)
+	r := scRenderMode(tc.Items, scModeOf(raw, scSeed))
 	pc := &proto.Case{ID: id, Files: r.files(), Init: json.RawMessage(allOnLocal)}
 	for i, f := range r.Files {
 		pc.Steps = append(pc.Steps, openStep(f, r.Text[i]))
@@ -337,6 +340,21 @@ func checkC05(c *Ctx) {
 // scopeRuns is the generation plan shared by the Scope.tla families: exhaustive BFS over all
 // programs up to the item bound, plus simulated deeper programs over two files.
 func scopeRuns(c *Ctx, p *pool.Pool, build func(id int, raw json.RawMessage) *Job, judge func(j *Job, r *proto.Result)) bool {
+	scSeed = c.Seed
+	c.Rep.Assumptions = append(c.Rep.Assumptions, "each program is laid out either one statement per line or all on one line (seeded choice; the thorough tier runs both layouts)")
+	if c.Thorough() && scPass == 0 && !scNoOneLine {
+		defer func() {
+			scPass = 1
+			scopeRunsOnce(c, p, build, judge, "_layout2")
+		}()
+	}
+	return scopeRunsOnce(c, p, build, judge, "")
+}
+
+// scNoOneLine: the family needs line-oriented programs (completion types on a new line).
+var scNoOneLine = false
+
+func scopeRunsOnce(c *Ctx, p *pool.Pool, build func(id int, raw json.RawMessage) *Job, judge func(j *Job, r *proto.Result), sfx string) bool {
 	items := 3
 	if scLight && !c.Thorough() {
 		items = 2
@@ -347,19 +365,19 @@ func scopeRuns(c *Ctx, p *pool.Pool, build func(id int, raw json.RawMessage) *Jo
 	invs := "TypeOK IdsFresh IdsUnique BindsPrecede ReadsDeclared Emit"
 	if scLight && !c.Thorough() {
 		// families with several queries per occurrence: three items only over the scoping-relevant forms, one file
-		if !c.streamRun("bfs3_core", tlc.Run{Module: "Scope", Workers: 8, Timeout: 30 * time.Minute,
-			Cfg: scCfg(`{"a","b"}`, 3, 3, 1, `{"local","use","assign","do","repeat","fornum","lfunc","lefunc","gfunc"}`, 3, "Next", "Emit")}, p, 8, build, judge) {
+		if !c.streamRun("bfs3_core"+sfx, tlc.Run{Module: "Scope", Workers: 8, Timeout: 30 * time.Minute,
+			Cfg: scCfg(`{"a","b"}`, 3, 3, 1, `{"local","use","assign","assign2","do","repeat","fornum","lfunc","lefunc","gfunc"}`, 3, "Next", "Emit")}, p, 8, build, judge) {
 			return false
 		}
 	}
-	if !c.streamRun("bfs", tlc.Run{Module: "Scope", Workers: 8, Timeout: 30 * time.Minute,
+	if !c.streamRun("bfs"+sfx, tlc.Run{Module: "Scope", Workers: 8, Timeout: 30 * time.Minute,
 		Cfg: scCfg(`{"a","b"}`, items, 3, 2, scKinds, 1, "Next", invs)}, p, 8, build, judge) {
 		return false
 	}
 	if c.Thorough() {
 		// four items over the statement forms that interact with scoping (no second file, no methods)
-		if !c.streamRun("bfs4_core", tlc.Run{Module: "Scope", Workers: 8, Timeout: 60 * time.Minute,
-			Cfg: scCfg(`{"a","b"}`, 4, 4, 1, `{"local","use","assign","do","repeat","fornum","lfunc","lefunc","gfunc"}`, 4, "Next", "Emit")}, p, 8, build, judge) {
+		if !c.streamRun("bfs4_core"+sfx, tlc.Run{Module: "Scope", Workers: 8, Timeout: 60 * time.Minute,
+			Cfg: scCfg(`{"a","b"}`, 4, 4, 1, `{"local","use","assign","assign2","do","repeat","fornum","lfunc","lefunc","gfunc"}`, 4, "Next", "Emit")}, p, 8, build, judge) {
 			return false
 		}
 	}
@@ -367,7 +385,7 @@ func scopeRuns(c *Ctx, p *pool.Pool, build func(id int, raw json.RawMessage) *Jo
 	if c.Thorough() {
 		num, depth = 60000, 18
 	}
-	if !c.streamRun("simulated", tlc.Run{Module: "Scope", Workers: 1, Timeout: 60 * time.Minute,
+	if !c.streamRun("simulated"+sfx, tlc.Run{Module: "Scope", Workers: 1, Timeout: 60 * time.Minute,
 		Simulate: fmt.Sprintf("num=%d", num), Depth: depth + 1,
 		Cfg: scCfg(`{"a","b"}`, depth, 5, 2, scKinds, depth, "Next", "Emit")}, p, 8, build, judge) {
 		return false
